@@ -97,7 +97,7 @@ def api_level(chk, b, tier):
     os.makedirs(logdir, exist_ok=True)
     chunks = [scenarios[i::16] for i in range(16)]
 
-    results = R.pmap(_runchunk, [(drv, logdir, ch) for ch in chunks])
+    results = R.pmap(_runchunk, [(drv, logdir, ch) for ch in chunks], chk=chk)
     byid = {s["id"]: s for s in scenarios}
     ticks = frames = 0
     nobs = 0
@@ -247,7 +247,7 @@ def run(chk, b, tier):
     shimdir = b.shimdir()
     scratch = b.scratchdir()
     n = 24 if tier == "quick" else 300
-    res = R.pmap(cli_case, [(R.SEED, i, sz, shimdir, scratch) for i in range(n)])
+    res = R.pmap(cli_case, [(R.SEED, i, sz, shimdir, scratch) for i in range(n)], chk=chk)
     ticks = 0
     for i, r in enumerate(res):
         chk.count(r["evals"])
